@@ -31,3 +31,11 @@ type Page struct {
 	Raw      pk.String
 	Filtered pk.Option[pk.String, *pk.String]
 }
+
+func (p *Page) ReadFrom(r io.Reader) (int64, error) {
+	return pk.Tuple{&p.Raw, &p.Filtered}.ReadFrom(r)
+}
+
+func (p Page) WriteTo(w io.Writer) (int64, error) {
+	return pk.Tuple{p.Raw, p.Filtered}.WriteTo(w)
+}
